@@ -17,6 +17,7 @@ var c09Gen = TreeGen{MaxDepth: 2, MaxWidth: 4, MinWidth: 1, NilLeaves: 8, Conds:
 
 func inertPush(...any) error         { return nil }
 func inertValid(...any) error        { return nil }
+func rejectValid(...any) error       { return errPolicyRejects }
 func inertLess(i, j int) bool        { return i < j }
 func inertEq(any, any) error         { return nil }
 func inertUnm(...any) ([]any, error) { return []any{"X"}, nil }
@@ -35,7 +36,11 @@ func c09Settings(s stackage.Stack, r *core.Rng) {
 		s.SetPushPolicy(inertPush)
 	}
 	if r.Chance(1, 4) {
-		s.SetValidityPolicy(inertValid)
+		if r.Chance(1, 3) {
+			s.SetValidityPolicy(rejectValid) // an instance its own policy currently rejects is still read-only
+		} else {
+			s.SetValidityPolicy(inertValid)
+		}
 	}
 	if r.Chance(1, 4) {
 		s.SetLessFunc(inertLess)
